@@ -59,7 +59,31 @@ for pid in sorted(acc):
             b.append(f"- `{name}`: {'caught with a failing input' if res=='input' else ('reported, no failing input found' if res=='no-input' else 'MISSED')} — {first}")
         b.append("")
     blocks.append("\n".join(b))
-gen = "\n".join(out) + "\n\n" + "\n".join(blocks)
+import subprocess
+def wc(pattern):
+    return sum(len(open(f, errors="replace").read().splitlines()) for f in glob.glob(os.path.join(V, pattern), recursive=True))
+nth = 0
+for f in glob.glob(os.path.join(V, "lean/Gms/Props/*.lean")) + glob.glob(os.path.join(V, "lean/Gms/Lemmas/*.lean")):
+    nth += len(re.findall(r"^(?:theorem|lemma) ", open(f).read(), re.M))
+tot_ob = 0; nfind = 0; nfixed = 0
+for pid in acc:
+    evp = os.path.join(V, "evidence", pid + ".json")
+    if os.path.exists(evp):
+        tot_ob += json.load(open(evp)).get("coverage", {}).get("obligations", 0)
+    kp = os.path.join(V, "known_findings", pid + ".jsonl")
+    if os.path.exists(kp):
+        for l in open(kp):
+            l = l.strip()
+            if l and not l.startswith("#"):
+                if json.loads(l).get("kind") == "fixed": nfixed += 1
+                else: nfind += 1
+nseed = len(glob.glob(os.path.join(V, "seeded", "*", "meta.json")))
+stats = (f"Size of what is checked on every run: {wc('lean/Gms/Model/*.lean')} lines of executable Lean models, "
+         f"{wc('lean/Gms/Lemmas/*.lean') + wc('lean/Gms/Props/*.lean')} lines of proofs ({nth} theorems/lemmas; {tot_ob} proof obligations "
+         f"counted by the checks, examples included), {wc('lean/Drivers/*.lean') + wc('lean/Gms/Driver/*.lean')} lines of drivers, "
+         f"{wc('harness/**/*.go')} lines of Go harness (extractors, generators, oracles); {nfind} listed findings of the unchanged tree, "
+         f"{nfixed} finding entries repaired by fix: commits; {nseed} independently seeded changes verified.\n\n")
+gen = stats + "\n".join(out) + "\n\n" + "\n".join(blocks)
 p = os.path.join(V, "DESIGN.md")
 s = open(p).read()
 B, E = "<!-- BEGIN as-built register (generated by tools/gen_design_register.py) -->", "<!-- END as-built register -->"
